@@ -307,8 +307,11 @@ impl RuntimeData {
             if let Value::Object(mut t) = val {
                 unsafe {
                     let t = t.as_mut();
-                    t.marker = GcMarker::Gray;
-                    progress_tracker.push(t);
+                    // guarded objects keep their marker, they are traced below
+                    if matches!(t.marker, GcMarker::White) {
+                        t.marker = GcMarker::Gray;
+                        progress_tracker.push(t);
+                    }
                 }
             }
         }
@@ -317,7 +320,21 @@ impl RuntimeData {
             if let Value::Object(mut t) = val {
                 unsafe {
                     let t = t.as_mut();
-                    t.marker = GcMarker::Gray;
+                    // guarded objects keep their marker, they are traced below
+                    if matches!(t.marker, GcMarker::White) {
+                        t.marker = GcMarker::Gray;
+                        progress_tracker.push(t);
+                    }
+                }
+            }
+        }
+
+        // objects held by an ObjectGcGuard are never swept, so what they refer to has to be kept
+        // as well (a table under construction refers to the entries inserted so far)
+        for object in self.object_list.iter() {
+            unsafe {
+                let t = &mut *object.as_ptr();
+                if matches!(t.marker, GcMarker::Protected) {
                     progress_tracker.push(t);
                 }
             }
